@@ -208,6 +208,13 @@ pub fn wait_cb(id: i64, timeout: Duration) -> Option<CbVal> {
     }
 }
 
+/// the callback table as it stands: (cb_id, invocations recorded) of every id not yet collected, newest last
+pub fn pending_table() -> Vec<(i64, usize)> {
+    let mut v: Vec<(i64, usize)> = CALLS.0.lock().unwrap().iter().map(|(k, c)| (*k, c.len())).collect();
+    v.sort();
+    v
+}
+
 /// number of invocations recorded so far for this id (and forget them)
 pub fn take_count(id: i64) -> usize {
     CALLS.0.lock().unwrap().remove(&id).map_or(0, |v| v.len())
